@@ -727,6 +727,41 @@ fn sec_migrate(s: &mut Sink, rng: &mut Rng, workloads: usize, oracle: &mut Vec<S
         if rng.chance(1, 2) {
             kind = mutate_image(rng, &mut img, version);
         }
+        if rng.chance(1, 3) {
+            // a crashed source: an ACTIVE intent journal (extents in allocation order, i.e. not sorted)
+            // over some of the record extents and free blocks
+            let scratch = format!("{}/mig{}_probe.feox", s.dir, w);
+            std::fs::write(&scratch, &img).unwrap();
+            let mut extents: Vec<(u64, usize)> = vec![];
+            if let Ok(st) = FeoxStore::builder().device_path(scratch.clone()).hash_bits(6).enable_caching(false).build() {
+                for r in st.verif_snapshot() {
+                    let hdr = if version == 1 { 4 + 2 + 8 + 8 } else { 4 + 2 + 8 + 8 + 8 };
+                    let n = (hdr + r.key.len() + r.value_len).div_ceil(BS);
+                    if r.sector >= 16 { extents.push((r.sector, n)); }
+                }
+                for f in st.verif_free_runs() {
+                    if f.1 >= 1 { extents.push((f.0, 1)); }
+                }
+                drop(st);
+            }
+            let _ = std::fs::remove_file(&scratch);
+            if extents.len() >= 2 {
+                // pick 2..4, put them in descending / shuffled order
+                let k = (rng.range(2, 4) as usize).min(extents.len());
+                for i in (1..extents.len()).rev() { let j = rng.below(i as u64 + 1) as usize; extents.swap(i, j); }
+                let mut chosen: Vec<(u64, usize)> = extents[..k].to_vec();
+                chosen.sort_by(|a, b| b.0.cmp(&a.0));
+                if rng.chance(1, 3) { chosen.reverse(); }
+                if let Ok(j) = fx::journal_encode_active(900 + rng.below(50), &chosen) {
+                    let slot = rng.below(2) as usize;
+                    let off = (1 + slot * 3) * BS;
+                    for x in &mut img[off..off + 3 * BS] { *x = 0; }
+                    let l = j.len().min(3 * BS);
+                    img[off..off + l].copy_from_slice(&j[..l]);
+                    kind = "active-journal";
+                }
+            }
+        }
         if rng.chance(1, 4) {
             // an ambiguous legacy marker: tag only, everything else zero, in some data block
             let b = rng.range(16, blocks - 1) as usize;
@@ -914,6 +949,7 @@ fn main() {
     // a panic inside the store must not kill the harness silently
     std::panic::set_hook(Box::new(|_| {}));
     feoxdb::verif::io::disable_ring(true);
+    feoxdb::verif::proto::fast_shutdown(true);
     let k = kv(&args.extra, "scale", if args.thorough { 20 } else { 1 });
     let mut oracle: Vec<String> = vec![];
     if sections.iter().any(|x| x == "codec") {
